@@ -717,22 +717,10 @@ func runC14(c *Ctx) {
 		}
 	}
 
-	R.Rule("R-render-verbatim", "E4", "the rendered MAIL/RCPT line reaches the wire verbatim: it is an operand of a constant \"%s\" format, never the format itself", 2)
-	for _, fn := range []string{"(*Client).Mail", "(*Client).Rcpt"} {
-		f := c.A.Func(fn)
-		if f == nil {
-			continue
-		}
-		for _, site := range s.Find(f, "ccmd") {
-			cc := callCommon(site)
-			format, isConst := constString(cc.Args[2])
-			args := varargValues(cc.Args[3])
-			ok := isConst && format == "%s" && len(args) == 1 && strings.HasPrefix(describe(args[0]), "(*strings.Builder).String(")
-			R.Ob(c.siteKey(site, "line sent as operand of \"%s\""), c.P.InstrPos(site), ok, "the command line is sent with format "+describe(cc.Args[2])+": characters such as '%' in values are not transmitted unchanged")
-		}
-	}
+	ruleRenderVerbatim(c)
 
 	ruleOptsPointerFresh(c)
+	ruleXtextDecodesEveryPlus(c)
 
 	R.Rule("R-field-key", "E8+E4 pairing", "the client renders each option field under the key the server stores it from; NOTIFY separator, RRVS layout and the unitext/xtext choice agree", 10)
 	pairs := []struct{ fn, token, source string }{
@@ -879,4 +867,24 @@ func runC14(c *Ctx) {
 		}
 	}
 	var _ = sort.Strings
+}
+
+// ruleRenderVerbatim (C14, C16): the MAIL/RCPT line the client has rendered reaches the wire unchanged.
+func ruleRenderVerbatim(c *Ctx) {
+	R := c.R
+	_, s := c.Std()
+	R.Rule("R-render-verbatim", "E4", "the rendered MAIL/RCPT line reaches the wire verbatim: it is an operand of a constant \"%s\" format, never the format itself", 2)
+	for _, fn := range []string{"(*Client).Mail", "(*Client).Rcpt"} {
+		f := c.A.Func(fn)
+		if f == nil {
+			continue
+		}
+		for _, site := range s.Find(f, "ccmd") {
+			cc := callCommon(site)
+			format, isConst := constString(cc.Args[2])
+			args := varargValues(cc.Args[3])
+			ok := isConst && format == "%s" && len(args) == 1 && strings.HasPrefix(describe(args[0]), "(*strings.Builder).String(")
+			R.Ob(c.siteKey(site, "line sent as operand of \"%s\""), c.P.InstrPos(site), ok, "the command line is sent with format "+describe(cc.Args[2])+": characters such as '%' in values are not transmitted unchanged")
+		}
+	}
 }
